@@ -374,6 +374,25 @@ pub fn gen_mean(rng: &mut Rng, tier: &Tier) -> Vec<Case> {
             cases.push(c);
         }
     }
+    // arbitrary (sum, taps, weight) states re-injected through `from_guts`: one step is `sum - evicted + new`, the
+    // weight grows until the ring is full - whatever the state says
+    for &n in &[1usize, 2, 3, 5] {
+        for k in 0..=n {
+            for _ in 0..tier.n(3, 30) {
+                let taps: Vec<String> = (0..k).map(|_| rat(rng)).collect();
+                let mut c = vec![format!(
+                    "inject 1 mean N={} taps={} mean={} weight={}",
+                    n, csv(&taps), opt_rat(rng), rat_nonzero(rng)
+                )];
+                for _ in 0..rng.range(1, n as i64 + 3) {
+                    c.push(format!("f 1 {}", rat(rng)));
+                    c.push("guts 1 mean".into());
+                    c.push("guts 1 weight".into());
+                }
+                cases.push(c);
+            }
+        }
+    }
     // machine integers: the division truncates toward zero (negative sums included)
     for &n in WIDTHS.iter() {
         for _ in 0..tier.n(20, 300) {
@@ -689,6 +708,16 @@ pub fn gen_smooth(rng: &mut Rng, tier: &Tier) -> Vec<Case> {
         &["mean"],
     ));
     cases.extend(single_kind_cases(rng, "emedian", tier.n(300, 3000), 8, &["median"]));
+    cases.extend(injected_cases(
+        rng,
+        tier.n(60, 600),
+        &|rng| {
+            let k = random_kind(rng, "emedian");
+            format!("inject 1 {} spre={} spost={} median={}", k.params, opt_rat(rng), opt_rat(rng), opt_rat(rng))
+        },
+        false,
+        &["median"],
+    ));
     // constant signals are reproduced exactly
     for kind in ["ema", "emedian"] {
         for _ in 0..tier.n(50, 500) {
